@@ -461,13 +461,253 @@ class _Canon(ast.NodeTransformer):
         return n
 
 
+def _collecting_loop(init: ast.stmt, loop: ast.stmt) -> ast.stmt | None:
+    """`X = []` directly followed by `for T in I: [if C:] X.append(E)` is
+    the list comprehension `X = [E for T in I if C]`; returns that
+    assignment (both spellings are read as the comprehension)."""
+    if not (isinstance(init, ast.Assign) and len(init.targets) == 1
+            and isinstance(init.targets[0], ast.Name)
+            and isinstance(init.value, ast.List) and not init.value.elts):
+        return None
+    if not (isinstance(loop, ast.For) and not loop.orelse
+            and len(loop.body) == 1):
+        return None
+    x = init.targets[0].id
+    st = loop.body[0]
+    conds: list[ast.expr] = []
+    while isinstance(st, ast.If) and len(st.body) == 1 and (
+            not st.orelse or (len(st.orelse) == 1 and isinstance(
+                st.orelse[0], ast.Pass))):
+        conds.append(st.test)
+        st = st.body[0]
+    if not (isinstance(st, ast.Expr) and isinstance(st.value, ast.Call)
+            and isinstance(st.value.func, ast.Attribute)
+            and st.value.func.attr == 'append'
+            and isinstance(st.value.func.value, ast.Name)
+            and st.value.func.value.id == x and len(st.value.args) == 1
+            and not st.value.keywords):
+        return None
+    used = {n.id for e in [loop.iter] + conds + [st.value.args[0]]
+            for n in ast.walk(e) if isinstance(n, ast.Name)}
+    if x in used or any(isinstance(n, (ast.Await, ast.Yield, ast.YieldFrom))
+                        for e in conds + [st.value.args[0]]
+                        for n in ast.walk(e)):
+        return None
+    comp = ast.ListComp(
+        elt=st.value.args[0],
+        generators=[ast.comprehension(
+            target=loop.target, iter=loop.iter, ifs=conds, is_async=0)])
+    out = ast.Assign(targets=[ast.Name(x, ast.Store())], value=comp,
+                     type_comment=None)
+    return ast.fix_missing_locations(ast.copy_location(out, init))
+
+
+def _canon_collect(tree: ast.AST) -> None:
+    for node in ast.walk(tree):
+        for fld in ('body', 'orelse', 'finalbody'):
+            b = getattr(node, fld, None)
+            if not (isinstance(b, list) and b and isinstance(b[0], ast.stmt)):
+                continue
+            i = 0
+            while i + 1 < len(b):
+                new = _collecting_loop(b[i], b[i + 1])
+                if new is not None:
+                    b[i:i + 2] = [new]
+                else:
+                    i += 1
+
+
+def canon(tree: ast.Module) -> None:
+    """All program normalisations that do not need the reference table."""
+    _Canon().visit(tree)
+    _canon_collect(tree)
+
+
+# ---------------------------------------------------------------------------
+# Extract-method invariance (DESIGN 8.8).  A function or method that the
+# pinned tree does not have (its qualified name is not in the reference's
+# function list) and that is called at statement level - `self._h(...)`,
+# `Class._h(...)`, `_h(...)`, alone, as the value of an assignment or of a
+# return - is a freshly extracted helper.  If it is simple (no yield, one
+# `return` at most, as its last statement) its body is inlined at the call
+# again, with `param = argument` bindings in front, so that the caller is the
+# same program to every rule as before the extraction.  Inlining preserves
+# behaviour, so a genuine change inside the helper is still seen - now in
+# the caller, where the rules look.
+FUNCS_KEY = '__functions__'
+
+
+def _simple_helper(fn: ast.AST) -> bool:
+    if isinstance(fn, ast.AsyncFunctionDef):
+        return False
+    if any(norm_dec(d) not in ('staticmethod',) for d in fn.decorator_list):
+        return False
+    a = fn.args
+    if a.vararg or a.kwarg or a.posonlyargs:
+        return False
+    rets = []
+    for n in _walk_own(fn):
+        if isinstance(n, (ast.Yield, ast.YieldFrom, ast.Await, ast.Global,
+                          ast.Nonlocal)):
+            return False
+        if isinstance(n, ast.Return):
+            rets.append(n)
+    if len(rets) > 1:
+        return False
+    return not rets or fn.body[-1] is rets[0]
+
+
+def norm_dec(d: ast.AST) -> str:
+    try:
+        return ast.unparse(d)
+    except Exception:
+        return '?'
+
+
+def _call_of(st: ast.stmt) -> ast.Call | None:
+    v = getattr(st, 'value', None)
+    if isinstance(st, (ast.Expr, ast.Assign, ast.Return)) and isinstance(
+            v, ast.Call):
+        return v
+    return None
+
+
+def _inline_call(st: ast.stmt, call: ast.Call, fn: ast.AST,
+                 is_method: bool) -> list[ast.stmt] | None:
+    params = [p.arg for p in fn.args.args]
+    static = any(norm_dec(d) == 'staticmethod' for d in fn.decorator_list)
+    if is_method and not static:
+        params = params[1:]
+    defaults = fn.args.defaults
+    dmap = dict(zip(params[len(params) - len(defaults):], defaults))
+    for k, d in zip(fn.args.kwonlyargs, fn.args.kw_defaults):
+        params.append(k.arg)
+        if d is not None:
+            dmap[k.arg] = d
+    if any(isinstance(a, ast.Starred) for a in call.args) or any(
+            k.arg is None for k in call.keywords):
+        return None
+    bound: dict[str, ast.AST] = {}
+    pos = [p.arg for p in fn.args.args]
+    if is_method and not static:
+        pos = pos[1:]
+    if len(call.args) > len(pos):
+        return None
+    for p, a in zip(pos, call.args):
+        bound[p] = a
+    for k in call.keywords:
+        if k.arg not in params or k.arg in bound:
+            return None
+        bound[k.arg] = k.value
+    for p in params:
+        if p not in bound:
+            if p not in dmap:
+                return None
+            bound[p] = dmap[p]
+    out: list[ast.stmt] = []
+    for p in params:
+        a = bound[p]
+        if isinstance(a, ast.Name) and a.id == p:
+            continue
+        out.append(ast.Assign(targets=[ast.Name(p, ast.Store())],
+                              value=copy.deepcopy(a), type_comment=None))
+    body = copy.deepcopy(fn.body)
+    if body and isinstance(body[0], ast.Expr) and isinstance(
+            body[0].value, ast.Constant) and isinstance(
+            body[0].value.value, str):
+        body = body[1:]
+    ret = None
+    if body and isinstance(body[-1], ast.Return):
+        ret = body[-1].value
+        body = body[:-1]
+    out += body
+    if isinstance(st, ast.Expr):
+        if ret is not None:
+            out.append(ast.Expr(value=ret))
+    elif isinstance(st, ast.Assign):
+        same = ret is not None and len(st.targets) == 1 and (
+            norm_dec(st.targets[0]).strip('()') == norm_dec(ret).strip('()'))
+        if not same:  # `a, b = (a, b)` after inlining is nothing
+            out.append(ast.Assign(
+                targets=st.targets, value=ret or ast.Constant(None),
+                type_comment=None))
+    else:
+        out.append(ast.Return(value=ret))
+    for s in out:
+        ast.copy_location(s, st)
+        ast.fix_missing_locations(s)
+    return out
+
+
+def deextract(tree: ast.Module, path: str, ref_funcs: set[str]) -> int:
+    if not ref_funcs:
+        return 0
+    new_mod: dict[str, ast.AST] = {}
+    new_meth: dict[tuple[str, str], ast.AST] = {}
+    for c in tree.body:
+        if isinstance(c, ast.FunctionDef) and (
+                f'{path}:{c.name}' not in ref_funcs) and _simple_helper(c):
+            new_mod[c.name] = c
+        elif isinstance(c, ast.ClassDef):
+            for m in c.body:
+                if isinstance(m, ast.FunctionDef) and (
+                        f'{path}:{c.name}.{m.name}' not in ref_funcs
+                ) and _simple_helper(m):
+                    new_meth[(c.name, m.name)] = m
+    if not new_mod and not new_meth:
+        return 0
+    done = 0
+
+    def target(call: ast.Call, cls: str | None):
+        f = call.func
+        if isinstance(f, ast.Name) and f.id in new_mod:
+            return new_mod[f.id], False
+        if isinstance(f, ast.Attribute) and isinstance(f.value, ast.Name):
+            if f.value.id in ('self', 'cls') and cls and (
+                    (cls, f.attr) in new_meth):
+                return new_meth[(cls, f.attr)], True
+            if (f.value.id, f.attr) in new_meth:
+                m = new_meth[(f.value.id, f.attr)]
+                if any(norm_dec(d) == 'staticmethod'
+                       for d in m.decorator_list):
+                    return m, True
+        return None, False
+
+    def walk(node: ast.AST, cls: str | None, depth: int) -> None:
+        nonlocal done
+        for c in ast.iter_child_nodes(node):
+            if isinstance(c, ast.ClassDef):
+                walk(c, c.name, depth)
+                continue
+            for fld in ('body', 'orelse', 'finalbody'):
+                b = getattr(c, fld, None)
+                if not (isinstance(b, list) and b
+                        and isinstance(b[0], ast.stmt)):
+                    continue
+                i = 0
+                while i < len(b) and done < 200:
+                    call = _call_of(b[i])
+                    fn, is_m = target(call, cls) if call else (None, False)
+                    if fn is not None and fn is not c:
+                        new = _inline_call(b[i], call, fn, is_m)
+                        if new is not None:
+                            b[i:i + 1] = new
+                            done += 1
+                            continue
+                    i += 1
+            walk(c, cls, depth + 1)
+    walk(tree, None, 0)
+    return done
+
+
 def apply(tree: ast.Module, path: str) -> int:
     """De-alpha every function of a parsed module in place; returns the
     number of functions whose locals were renamed or re-inlined."""
-    _Canon().visit(tree)
+    canon(tree)
     ref = reference()
     if not ref:
         return 0
+    deextract(tree, path, set(ref.get(FUNCS_KEY, [])))  # type: ignore
     n = 0
 
     def visit(node: ast.AST, prefix: str) -> None:
@@ -494,6 +734,7 @@ def apply(tree: ast.Module, path: str) -> int:
 
 def build_table(root: str = '/repo') -> dict[str, list]:
     out: dict[str, list] = {}
+    funcs: list[str] = []
     for dp, dn, fn in os.walk(os.path.join(root, 'bqskit')):
         dn[:] = sorted(d for d in dn if d != '__pycache__')
         for f in sorted(fn):
@@ -502,7 +743,7 @@ def build_table(root: str = '/repo') -> dict[str, list]:
             p = os.path.join(dp, f)
             rel = os.path.relpath(p, root)
             tree = ast.parse(open(p, encoding='utf-8').read())
-            _Canon().visit(tree)
+            canon(tree)
 
             def visit(node: ast.AST, prefix: str) -> None:
                 for c in ast.iter_child_nodes(node):
@@ -512,6 +753,7 @@ def build_table(root: str = '/repo') -> dict[str, list]:
                         c, (ast.FunctionDef, ast.AsyncFunctionDef),
                     ):
                         fl, ns = sites(c)
+                        funcs.append(f'{rel}:{prefix}{c.name}')
                         if fl or ns:
                             out[f'{rel}:{prefix}{c.name}'] = [
                                 [[a, b] for a, b in fl],
@@ -519,6 +761,7 @@ def build_table(root: str = '/repo') -> dict[str, list]:
                             ]
                         visit(c, f'{prefix}{c.name}.')
             visit(tree, '')
+    out[FUNCS_KEY] = sorted(funcs)  # type: ignore[assignment]
     return out
 
 
